@@ -367,6 +367,18 @@ var sanitize = regexp.MustCompile(`[^A-Za-z0-9_.-]+`)
 // Finish writes the evidence file, prints KNOWN-FINDING / VIOLATION / INCONCLUSIVE
 // lines and returns the process exit code (0 held, 1 violated, 3 inconclusive).
 func (r *Run) Finish(rule string) int {
+	// panics that escaped into a worker (calls the check makes without recover() because they are honest operations): with a
+	// frame inside the library the honest operation itself crashed, which no property allows; otherwise the harness is at fault
+	workerMu.Lock()
+	wps := workerPanics
+	workerMu.Unlock()
+	for _, wp := range wps {
+		if site := PanicSite(wp.stack); site != "unknown" {
+			r.Violation(r.Prop+"/library-panics-in-honest-operation@"+site, "an operation the check performs as the honest party panicked inside the library: "+wp.value+" ["+wp.stack+"]", map[string]any{"panic": wp.value, "stack": wp.stack})
+		} else {
+			r.Inconclusive("a worker of the check panicked outside the library: " + wp.value + " [" + wp.stack + "]")
+		}
+	}
 	r.mu.Lock()
 	floors := r.floors
 	r.mu.Unlock()
@@ -497,9 +509,22 @@ func Parallel(n, w int, f func(i int)) {
 				if i >= n {
 					return
 				}
-				f(i)
+				// a panic in a worker must not take the monitor down with everything it has observed: it is kept and
+				// judged when the run finishes (see Finish)
+				if pv, stack := Try(func() { f(i) }); pv != nil {
+					workerMu.Lock()
+					workerPanics = append(workerPanics, workerPanic{fmt.Sprint(pv), stack})
+					workerMu.Unlock()
+				}
 			}
 		}()
 	}
 	wg.Wait()
 }
+
+type workerPanic struct{ value, stack string }
+
+var (
+	workerMu     sync.Mutex
+	workerPanics []workerPanic
+)
